@@ -194,6 +194,18 @@ func (p *Propagator) shouldIgnore(bseg beacon.Beacon, intf *ifstate.Interface) b
 	if err := beacon.FilterLoop(bseg, intf.TopoInfo().IA, p.AllowIsdLoop); err != nil {
 		return true
 	}
+	// The local AS is only added to the segment when it is extended, but it is part of the path
+	// the propagated beacon describes: the loop check has to see it between the received entries
+	// and the neighbor (e.g. ISD 2 -> local ISD 1 -> ISD 2 is an ISD loop).
+	if bseg.Segment != nil && !p.IA.IsZero() {
+		entries := make([]seg.ASEntry, 0, len(bseg.Segment.ASEntries)+1)
+		entries = append(entries, bseg.Segment.ASEntries...)
+		entries = append(entries, seg.ASEntry{Local: p.IA})
+		withLocal := beacon.Beacon{Segment: &seg.PathSegment{ASEntries: entries}, InIfID: bseg.InIfID}
+		if err := beacon.FilterLoop(withLocal, intf.TopoInfo().IA, p.AllowIsdLoop); err != nil {
+			return true
+		}
+	}
 	return false
 }
 
